@@ -45,6 +45,7 @@ class ValGen(object):
         # Text codecs (JER/XER/GSER) treat extension additions as ordinary
         # mandatory members, so leaving them out is an invalid value there.
         self.absent_additions = absent_additions
+        self.size_left = 6000
 
     # -- lookup ------------------------------------------------------------
 
@@ -104,6 +105,8 @@ class ValGen(object):
 
     def value(self, module_name, type_name):
         desc = self.spec[module_name]['types'][type_name]
+        # Total size budget of one value (octets / characters / elements).
+        self.size_left = 150000 if self.big else 6000
 
         return self.gen(desc, module_name, 0)
 
@@ -162,19 +165,31 @@ class ValGen(object):
         return root, extensible
 
     def pick_length(self, desc_chain, module_name, small_default=True):
+        length, minimum = self._pick_length(desc_chain, module_name)
+
+        if length > self.size_left:
+            length = max(minimum, min(length, max(0, self.size_left)))
+
+        self.size_left -= max(1, length)
+
+        return length
+
+    def _pick_length(self, desc_chain, module_name):
+        """Returns (drawn length, smallest permitted length)."""
+
         rng = self.rng
         size = self.first(desc_chain, 'size')
 
         if size is None:
             if self.big and rng.random() < 0.1:
-                return rng.choice(BIG_LEN)
+                return rng.choice(BIG_LEN), 0
 
-            return rng.choice(LEN_BOUNDARY)
+            return rng.choice(LEN_BOUNDARY), 0
 
         root, extensible = self.ranges(size, module_name, desc_chain)
 
         if not root:
-            return rng.choice(LEN_BOUNDARY)
+            return rng.choice(LEN_BOUNDARY), 0
 
         lo, hi = rng.choice(root)
         lo = 0 if lo is None else int(lo)
@@ -185,13 +200,14 @@ class ValGen(object):
         hi = int(hi)
 
         if extensible and rng.random() < 0.15:
-            return hi + rng.choice([1, 2, 10])
+            return hi + rng.choice([1, 2, 10]), lo
 
         if hi - lo > 400 and not (self.big and rng.random() < 0.3):
             # Big permitted range: stay small most of the time.
-            return min(hi, lo + rng.choice(LEN_BOUNDARY))
+            return min(hi, lo + rng.choice(LEN_BOUNDARY)), lo
 
-        return rng.choice([lo, hi, rng.randint(lo, hi), rng.randint(lo, hi)])
+        return rng.choice([lo, hi, rng.randint(lo, hi),
+                           rng.randint(lo, hi)]), lo
 
     def gen(self, desc, module_name, depth):
         rng = self.rng
